@@ -15,7 +15,7 @@ G_B == CASE Family = "chain" -> 0..(N - 1)
          [] Family = "box"   -> (-Box)..Box
          [] Family = "rel"   -> RelGrid
 G_W == CASE Family = "chain" -> (-1)..N
-         [] Family = "box"   -> (-(Box * Box + 2 * Box + 1))..(Box * Box + 2 * Box + 1)
+         [] Family = "box"   -> (-(Box + 2))..(Box + 2)      \* every bound plus two outer witnesses on each side
          [] Family = "rel"   -> RelGrid
 G_Scalars == (-Box)..Box
 
